@@ -1,7 +1,6 @@
 package props
 
 import (
-	"bytes"
 	"fmt"
 	"sort"
 	"strings"
@@ -289,7 +288,7 @@ func safeReadXML(b []byte) (c store.Cursor, err error) {
 			err = &panicError{r}
 		}
 	}()
-	return xsel.ReadXml(bytes.NewReader(b))
+	return xsel.ReadXml(readerFor(b))
 }
 
 func checkC09(c *c09Case) error {
